@@ -121,6 +121,27 @@ class CallMixin:
                 hooks = {inspect.getattr_static(c, "__copy__", None) for c in self.classes_of(st, v)}
                 if len(hooks) == 1 and None not in hooks:
                     return self.call_function(st, hooks.pop(), [v], {}, node)
+                if hooks == {None} and len(self.classes_of(st, v)) == 1:
+                    # generic shallow copy: a new object of the same class whose every modelled field holds what the
+                    # original's holds (containers are shared, as in Python)
+                    cls = self.classes_of(st, v)[0]
+                    new = st.alloc(cls)
+                    for f in list(st.heap.schema):
+                        if f.startswith("$"):
+                            continue
+                        if st.heap.schema[f] == "py":
+                            k = ("fld", f, v.z.get_id())
+                            if k in st.ghost:
+                                st.ghost[("fld", f, new.z.get_id())] = st.ghost[k]
+                            continue
+                        st.heap.put(f, new.z, st.heap.get(f, v.z))
+                        if st.heap.schema[f] in ("optint", "optstr") or str(st.heap.schema[f]).startswith("opt"):
+                            if f + "$none" in st.heap.arrays or True:
+                                try:
+                                    st.heap.put(f + "$none", new.z, st.heap.get(f + "$none", v.z))
+                                except Exception:
+                                    pass
+                    return [(st, new)]
         key = loader.func_key(fn)
         con = self.contracts.get(key)
         if con is not None and not (self.frames and self.frames[0].key == key and len(self.frames) == 1
